@@ -6,6 +6,7 @@ import Plonk.Model.Transcript
 import Plonk.Model.Kzg
 import Plonk.Model.Verifier
 import Plonk.Model.Prover
+import Plonk.Model.Codec
 import Plonk.Driver.Parse
 import Plonk.Driver.Kernels
 import Plonk.Driver.Prog
@@ -283,5 +284,61 @@ def proveAnswer (line : String) : String :=
       | _, _, _, _ => "bad-request"
     | _ => "bad-request"
   | _ => "bad-request"
+
+end Plonk.Driver
+
+namespace Plonk.Driver
+open Plonk
+
+def hashBytes (bs : List Nat) : String := toHex (hashList bs)
+
+/-- prover-side codec commands -/
+def codecAnswer (line : String) : String :=
+  let toks := (line.splitOn " ").filter (· ≠ "")
+  match toks with
+  | ["proverdec", h] =>
+    match parseBytes? h with
+    | some bs => match ProverM.fromBytes bs with
+      | .ok p => s!"ok h={hashBytes p.toBytes}"
+      | .error e => "err:" ++ e.name
+    | none => "bad-request"
+  | ["ckraw", h] =>
+    match parseBytes? h with
+    | some bs =>
+      match commitKeyFromRaw bs with
+      | .ok ck => s!"ok h={hashBytes (commitKeyToRaw ck)} n={ck.length}"
+      | .error e => "err:" ++ e.name
+    | none => "bad-request"
+  | ["ppdec", h] =>
+    match parseBytes? h with
+    | some bs => match ppFromBytes bs with
+      | .ok (ok, ck) => s!"ok h={hashBytes (ppToBytes ok ck)} n={ck.length}"
+      | .error e => "err:" ++ e.name
+    | none => "bad-request"
+  | ["evalsdec", h] =>
+    match parseBytes? h with
+    | some bs => match evalsFromBytes bs with
+      | .ok (d, ev) => s!"ok h={hashBytes (evalsToBytes d ev)} n={ev.length}"
+      | .error e => "err:" ++ e.name
+    | none => "bad-request"
+  | _ =>
+    -- `proveruse <x> <hex> <draws> || <prog>`
+    match line.splitOn "||" with
+    | [head, prog] =>
+      match (head.splitOn " ").filter (· ≠ "") with
+      | ["proveruse", x, h, draws] =>
+        match parseHex? x, parseBytes? h, optionAll drawOf? (draws.splitOn ",") with
+        | some x, some bs, some draws =>
+          match ProverM.fromBytes bs with
+          | .error e => "err:" ++ e.name
+          | .ok p =>
+            let s := runProg prog
+            if s.bad.isSome then "bad-op" else
+            match prove (p.toPKey x) s.c draws true with
+            | .ok tr => s!"proof={showBytes tr.proof.toBytes} pis={showList tr.pis}"
+            | .error e => "err:" ++ pErrName e
+        | _, _, _ => "bad-request"
+      | _ => "bad-request"
+    | _ => "bad-request"
 
 end Plonk.Driver
